@@ -659,7 +659,7 @@ Definition glom_body (rec : recfn) (sc : scope) (t : val) (s : spec) : M (val * 
         if bad_type && match default with Some _ => true | None => false end then dflt (ret (t, own))
         else if bad_val && match default with Some _ => true | None => false end then dflt (ret (t, own))
         else
-          (* validators: a False result with a default returns the default UNEVALUATED; a raising validator is an error *)
+          (* validators: a False result or a raising validator, with a default set, returns the default evaluated as an argument (F36, F48) *)
           (* with no condition at all Check validates truthiness *)
           let implicit := match types, vals, validators, inst_of with [], [], [], [] => true | _, _, _, _ => false end in
           let! verr := (if implicit
@@ -667,9 +667,7 @@ Definition glom_body (rec : recfn) (sc : scope) (t : val) (s : spec) : M (val * 
                               else ret (Some (match default with Some _ => true | None => false end)))
                         else validators_loop (match default with Some _ => true | None => false end) validators tv) in
           match verr with
-          | Some true => match default with
-                         | Some (SLit d) => ret (d, own) | Some (SStr d) => ret (VStr d, own)
-                         | _ => unmodelled "check-default" end
+          | Some true => dflt (ret (t, own))      (* like every other refusal: arg_val(target, default, scope) *)
           | _ =>
               if bad_inst && match default with Some _ => true | None => false end then dflt (ret (t, own))
               else if bad_type || bad_val || bad_inst || match verr with Some false => true | _ => false end
